@@ -86,6 +86,30 @@ def acc(qual, ensures, canary, **kw):
         inline=list(kw.pop("inline", [])) + ["_is_zombie", "_raise_if_zombie"], **kw))
 
 
+# the zombie test every error translation relies on ("ZombieProcess for a zombie's empty one", C12; C03): the state letter is
+# the character after the LAST ')' - for every comm, spaces and parentheses included
+def setup_is_zombie(it, cfg):
+    su = setup_acc(it, cfg)
+    # kernel grammar (fs/proc/array.c): the state field is exactly one character
+    rec = su["spec"]["rec"]
+    it.assume(Eq(smt.Len(smt.Nth(rec["F"].seq, I(0))), I(1)))
+    # ... printed right after ") " and followed by a space (do_task_stat: ") %c %d ..."): the first token of the text after
+    # the closing parenthesis IS its first character
+    it.assume(Eq(smt.Substr(rec["rest"], I(0), I(1)), smt.Nth(rec["F"].seq, I(0))))
+    it.assume(Eq(smt.Substr(rec["rest"], I(1), I(1)), S(b" ")))
+    return su
+
+
+IS_Z = REGISTRY.add(Contract(
+    "C06", LINUX_PY, "Process._is_zombie", setup=setup_is_zombie, env=ENV,
+    helpers=dict(HELPERS, read_failed=lambda it: smt.Or(it.ctx.ghost.get("saw_gone", B(False)),
+                                                    B(bool(it.ctx.ghost.get("saw_denied", False))))),
+    ensures=["implies(result, F[0] == b'Z')",                     # never True for a process that is not a zombie
+             "implies(F[0] == b'Z' and not read_failed(), result)"],  # (an unreadable stat file answers False)
+    raises={}, canaries=["result == True"], replay="c06:stat",
+    name="_pslinux.Process._is_zombie[stat]",
+    note="True exactly when the state field of /proc/<pid>/stat is Z, whatever the command name contains"))
+
 acc("Process.name", ["result == dec(comm)"], "result == dec(F[0])",
     inline=["decode"], note="the kernel's comm, byte for byte")
 acc("Process.ppid", ["result == intval(F[1])"], "result == intval(F[4])")
